@@ -26,18 +26,37 @@ Definition rs_name (name : str) : bool :=
   starts (rev (L ".rs")) (rev name) && (4 <=? List.length name).
 Definition excluded_dir (d : str) : bool := seg_is "target" d || seg_is ".git" d.
 
-Fixpoint spec_node (dirs : list str) (n : node) : list (list str * fn_def) :=
-  match n with
-  | NFile name (Parsed items) =>
+(* the text of a Rust source file may start with a byte order mark, then a shebang line; before
+   the first item there may be white space, comments and inner attributes, nothing else
+   (a frontmatter block is not stable Rust; a shebang or a BOM anywhere else is an error) *)
+Definition pro_is_trivia (x : pro) : bool :=
+  match x with PInnerAttr | PDocInner | PBlank | PComment => true | _ => false end.
+Definition rust_prologue_ok (l : list pro) : bool :=
+  let l := match l with PBom :: r => r | _ => l end in
+  let l := match l with PShebang :: r => r | _ => l end in
+  forallb pro_is_trivia l.
+(* the items of an entry that is a Rust source file, None when it fails to parse *)
+Definition spec_content (c : content) : option (list ritem) :=
+  match c with
+  | Parsed items => Some items
+  | Source p items => if rust_prologue_ok p then Some items else None
+  | Unparsable | NotUtf8 => None
+  end.
+Definition spec_entry (dirs : list str) (name : str) (c : content) : list (list str * fn_def) :=
+  match spec_content c with
+  | Some items =>
       if rs_name name && negb (existsb excluded_dir dirs)
       then map (fun f => (dirs ++ [name], f)) (top_level_annotated items) else []
-  | NFile _ _ => []
+  | None => []
+  end.
+
+Fixpoint spec_node (dirs : list str) (n : node) : list (list str * fn_def) :=
+  match n with
+  | NFile name c => spec_entry dirs name c
   | NDir name ch => flat_map (spec_node (dirs ++ [name])) ch
   (* an entry named stem.rs that is a symbolic link to a regular file IS an .rs file under the
      project path (it is one for every program that opens it); its place is that of the link *)
-  | NLink name (LFile (Parsed items)) =>
-      if rs_name name && negb (existsb excluded_dir dirs)
-      then map (fun f => (dirs ++ [name], f)) (top_level_annotated items) else []
+  | NLink name (LFile c) => spec_entry dirs name c
   (* under the project path, recursively = the directory tree proper: a link to a directory is
      not a directory of the tree (following it could leave the project or loop), a dangling
      link is no file *)
@@ -70,13 +89,33 @@ Definition name_ok (s : str) : bool :=
 Definition node_name (n : node) : str := match n with NFile s _ => s | NDir s _ => s | NLink s _ => s end.
 Fixpoint nodup_b (l : list str) : bool :=
   match l with [] => true | x :: r => negb (existsb (str_eqb x) r) && nodup_b r end.
+(* a text starts with at most one byte order mark (with two, syn and rustc disagree: the lexer
+   behind syn::parse_file strips a second one, rustc does not; outside the domain) *)
+Definition content_ok (c : content) : bool :=
+  match c with Source (PBom :: PBom :: _) _ => false | _ => true end.
 Fixpoint node_ok (n : node) : bool :=
   match n with
-  | NFile name _ => name_ok name
+  | NFile name c => name_ok name && content_ok c
   | NDir name ch => name_ok name && forallb node_ok ch && nodup_b (map node_name ch)
+  | NLink name (LFile c) => name_ok name && content_ok c
   | NLink name _ => name_ok name
   end.
 Definition layout_ok (l : layout) : bool := forallb node_ok l && nodup_b (map node_name l).
+
+(* ---- recorded class ---- *)
+(* C03-3: a run of the CLI on a tree without any discovered command while the output directory
+   holds the wrappers of an earlier run: the tool returns early and the stale commands.ts keeps
+   exporting wrappers for commands that no longer exist *)
+Definition stale_step (root : str) (s : step) (st : option (list cmd)) : bool :=
+  match s_route s, analyze root (s_tree s), st with
+  | RCli, [], Some (_ :: _) => true
+  | _, _, _ => false
+  end.
+Fixpoint kf_cli_stale (root : str) (st : option (list cmd)) (steps : list step) : bool :=
+  match steps with
+  | [] => false
+  | s :: r => stale_step root s st || kf_cli_stale root (run_step root s st) r
+  end.
 
 (* ---- observation: the wrappers of a commands.ts, read through Spec/TsModule ---- *)
 Fixpoint show_ty (t : ty) : str :=
